@@ -234,6 +234,14 @@ def updVars {σ} (S : Sys σ) (s : Sim σ) (ov : Upd) : Out (Sim σ) :=
 def clear {σ} (s : Sim σ) : Sim σ :=
   { s with segs := none, shift := none, errors := 0, integ := reinit s.y0 }
 
+/-- the index of `get_result().variables` (the frames concatenated) -/
+def times {σ} (segs : Option (List (Seg σ))) : List Rat :=
+  (segs.getD []).flatMap fun s => s.rows.map (·.1)
+
+/-- all recorded rows, concatenated -/
+def allRows {σ} (segs : Option (List (Seg σ))) : List (Rat × σ) :=
+  (segs.getD []).flatMap (·.rows)
+
 inductive Op where
   | simulate (tEnd : Rat) (steps : Option Nat)
   | timeCourse (pts : List Rat)
